@@ -77,7 +77,7 @@ theorem renew_trace_inv {so : ScriptOf} {a : Account} {newExpiry : UInt32} {rate
 
 theorem close_trace_inv {so : ScriptOf} {a : Account} {fe : FeeExpr} {ws : Bool → Script} {best : UInt32} {f : Faults}
     (h : (close so a fe ws best f).trace ≠ []) :
-    ¬ (a.state = StatePendingClosed ∨ a.state = StateClosed) ∧ ∃ outs,
+    (a.state = StateOpen ∨ a.state = StateExpired) ∧ ∃ outs,
       fe.closeOutputs ws a.value (determineWitnessType a best) = .ok outs ∧
       close so a fe ws best f
         = spendAccount so a .close (createSpendTx so a outs) (determineWitnessType a best)
@@ -90,8 +90,9 @@ theorem close_trace_inv {so : ScriptOf} {a : Account} {fe : FeeExpr} {ws : Bool 
     split at h
     · simp [refuse] at h
     · rename_i outs ho
-      refine ⟨hs, outs, ho, ?_⟩
-      simp [hs, ho]
+      have hs' : a.state = StateOpen ∨ a.state = StateExpired := Decidable.of_not_not hs
+      refine ⟨hs', outs, ho, ?_⟩
+      simp [hs', ho]
 
 theorem deposit_trace_inv {so : ScriptOf} {a : Account} {amount rate : Int} {best eh : UInt32} {nv : Nat}
     {maxValue : Option Int} {fd : Option Funded} {f : Faults}
